@@ -415,6 +415,7 @@ pub fn replay(args: &[String]) {
                 continue;
             }
             s.replays += 1;
+            watchdog::enter(|| json!({"behaviour": v, "cfg": cfg.describe()}).to_string());
             match replay_dispatch(&ops, cfg) {
                 Ok(c) => s.checks += c,
                 Err(mut m) => {
@@ -440,7 +441,9 @@ fn record_run<P: Pay>(rng: &mut Rng, cfg: &Cfg, nops: usize, out: &mut impl Writ
     let mut nid = 0u32;
     let mut cur: u64 = 0;
     let mut live: Vec<u32> = Vec::new();
+    let mut oplog: Vec<Value> = Vec::new();
     for _ in 0..nops {
+        watchdog::enter(|| json!({"recorded_history_so_far": oplog, "cfg": cfg.describe()}).to_string());
         let choice = rng.below(100);
         if choice < 45 && (nid as usize) < 250 {
             // add: adaptive deltas (ties with cur, ties with each other, neighbours, far)
@@ -459,13 +462,13 @@ fn record_run<P: Pay>(rng: &mut Rng, cfg: &Cfg, nops: usize, out: &mut impl Writ
             let r = catch_unwind(AssertUnwindSafe(|| q.add(emb.map(t), p)));
             match r {
                 Ok(h) => {
-                    writeln!(out, "{}", json!({"op":"add","t":t,"res":"ok","id":nid,"len":q.len(),"time":inv(q.time())})).unwrap();
+                    { let j = json!({"op":"add","t":t,"res":"ok","id":nid,"len":q.len(),"time":inv(q.time())}); writeln!(out, "{}", j).unwrap(); oplog.push(j); }
                     handles.push((nid, h));
                     live.push(nid);
                     nid += 1;
                 }
                 Err(_) => {
-                    writeln!(out, "{}", json!({"op":"add","t":t,"res":"panic","id":0,"len":q.len(),"time":inv(q.time())})).unwrap();
+                    { let j = json!({"op":"add","t":t,"res":"panic","id":0,"len":q.len(),"time":inv(q.time())}); writeln!(out, "{}", j).unwrap(); oplog.push(j); }
                 }
             }
         } else if choice < 80 {
@@ -483,7 +486,7 @@ fn record_run<P: Pay>(rng: &mut Rng, cfg: &Cfg, nops: usize, out: &mut impl Writ
                         cur = t as u64;
                     }
                     // a corrupted / prematurely dropped payload is logged as id -1 so that TLC rejects the line
-                    writeln!(out, "{}", json!({"op":"fetch","id": if ok { id as i64 } else { -1 },"t":t,"len":q.len(),"time":inv(q.time())})).unwrap();
+                    { let j = json!({"op":"fetch","id": if ok { id as i64 } else { -1 },"t":t,"len":q.len(),"time":inv(q.time())}); writeln!(out, "{}", j).unwrap(); oplog.push(j); }
                     live.retain(|x| *x != id);
                 }
                 Err(_) => return Err("fetch_next panicked".into()),
@@ -496,7 +499,7 @@ fn record_run<P: Pay>(rng: &mut Rng, cfg: &Cfg, nops: usize, out: &mut impl Writ
                 return Err("cancel panicked".into());
             }
             live.retain(|x| *x != id);
-            writeln!(out, "{}", json!({"op":"cancel","id":id,"len":q.len(),"time":inv(q.time())})).unwrap();
+            { let j = json!({"op":"cancel","id":id,"len":q.len(),"time":inv(q.time())}); writeln!(out, "{}", j).unwrap(); oplog.push(j); }
         }
     }
     // drop the queue: which payloads does it drop?
